@@ -1,5 +1,6 @@
 (* C14 glue.  Two input shapes:
-     (0 kind user secret (mech ...) wmode (rkind reason))   authSASL through VerifAuthSASL
+     (0 kind user secret ((ns local text) ...) wmode (rkind reason))   authSASL through VerifAuthSASL;
+        the list: the child elements of the SASL <mechanisms/> element the server sent
         kind 0 = Password, 1 = OAuthToken; wmode 0 = Write succeeds, 1 = Write
         returns an error, 2 = Write returns (0, nil); rkind 0 = <success/>,
         1 = <failure/>, 2 = other packet, 3 = read error
@@ -16,7 +17,7 @@ Import ListNotations.
 Open Scope Z_scope.
 
 Inductive c14_input :=
-| IAuth (k : cred_kind) (user secret : str) (server : list str) (w : wres) (r : reply)
+| IAuth (k : cred_kind) (user secret : str) (children : list fchild) (w : wres) (r : reply)
 | ICodec (data text : str).
 
 Definition dec_kind (z : Z) : option cred_kind :=
@@ -31,10 +32,13 @@ Definition dec_reply (x : sx) : option reply :=
   | _ => None
   end.
 
+Definition dec_child (x : sx) : option fchild :=
+  match x with SL [SS ns; SS local; SS text] => Some (ns, local, text) | _ => None end.
+
 Definition dec_input (x : sx) : option c14_input :=
   match x with
   | SL [SZ 0; SZ k; SS user; SS secret; server; SZ w; r] =>
-      do k' <- dec_kind k; do srv <- as_list as_s server; do w' <- dec_wres w;
+      do k' <- dec_kind k; do srv <- as_list dec_child server; do w' <- dec_wres w;
       do r' <- dec_reply r; Some (IAuth k' user secret srv w' r')
   | SL [SZ 1; SS data; SS text] => Some (ICodec data text)
   | _ => None
@@ -43,10 +47,7 @@ Definition dec_input (x : sx) : option c14_input :=
 Definition result_sx (r : result) : sx :=
   SZ (match r with Ok => 0 | ErrPermanent => 1 | ErrOther => 2 end).
 
-(* urn:ietf:params:xml:ns:xmpp-sasl / auth: the expanded name of what auth_element spells *)
-Definition s_ns_sasl : str :=
-  s_ [117; 114; 110; 58; 105; 101; 116; 102; 58; 112; 97; 114; 97; 109; 115; 58; 120; 109;
-      108; 58; 110; 115; 58; 120; 109; 112; 112; 45; 115; 97; 115; 108].
+(* {urn:ietf:params:xml:ns:xmpp-sasl}auth: the expanded name of what auth_element spells *)
 Definition s_auth : str := s_ [97; 117; 116; 104].
 
 (* the model's written bytes, read back by the model's own server-side reader
@@ -59,8 +60,8 @@ Definition elem_sx (e : str) : sx :=
 
 Definition run_typed (i : c14_input) : sx :=
   match i with
-  | IAuth k user secret server w r =>
-      let '(written, res) := auth_sasl k server user secret w r in
+  | IAuth k user secret children w r =>
+      let '(written, res) := auth_sasl_features k children user secret w r in
       SL [Snat (length written); result_sx res; SL (map elem_sx written)]
   | ICodec data text => SL [SS (b64_encode data); SO SS (b64_decode text)]
   end.
